@@ -26,7 +26,9 @@ OnReset == /\ Ev.e = "Reset"
            /\ UNCHANGED bad
 OnSpawn == /\ Ev.e = "Spawn" /\ parent' = Put(parent, Ev.a, Ev.p)
            /\ UNCHANGED <<bad, last, requeued, reqSeq, stash, pendingImm, dirty, kcalls, prior, delivered, fromOf>>
-OnTell == /\ Ev.e = "Tell" /\ fromOf' = Put(fromOf, Ev.m, <<Ev.p, Ev.a>>)
+\* (a message handed to the actor's own scheduler is "sent" when the timer fires, which the trace does not show: it is
+\* left out of the bookkeeping of what was told before a kill)
+OnTell == /\ Ev.e = "Tell" /\ fromOf' = (IF Ev.s = "sstash" THEN fromOf ELSE Put(fromOf, Ev.m, <<Ev.p, Ev.a>>))
           /\ UNCHANGED <<bad, last, requeued, reqSeq, stash, pendingImm, parent, dirty, kcalls, prior, delivered>>
 \* a failure makes the whole subtree "dirty": supervision may kill or restart it in ways the poison rule does not speak about
 \* a failure anywhere may lead to kills and restarts by supervision that the poison rule does not speak about:
@@ -68,7 +70,7 @@ OnDeliv ==
           /\ delivered' = IF Ev.k = "user" THEN delivered \cup {Ev.m} ELSE delivered
           /\ pendingImm' = IF Ev.k \in {"kill", "killed"} THEN pendingImm \ {a} ELSE pendingImm
           /\ bad' = IF isMsg /\ a \in pendingImm THEN Flag("ImmediateKillOvertakes")
-                     ELSE IF Ev.k = "user" /\ ~isReq /\ Ev.m < Get(last, a, 0) THEN Flag("SendOrder")
+                     ELSE IF Ev.k = "user" /\ ~isReq /\ Ev.s # "sstash" /\ Ev.m < Get(last, a, 0) THEN Flag("SendOrder")
                      ELSE IF isReq /\ (rs = <<>> \/ Head(rs) # Ev.m) THEN Flag("StashOrder")
                      ELSE IF cleanPoison /\ prior[a] \ delivered # {} THEN Flag("PoisonKillAfterPrior")
                      ELSE bad
